@@ -159,6 +159,67 @@ def _c19(failure, fd):
     return bool(eval(fd["cond"], g))
 
 
+def gen_tail_items(max_len=5):
+    """C19.D2: the statement-reordering tail of gen (from `doc_str = ast.get_docstring(parsed_ast)` to `parsed_ast.body = ...`) is extracted
+    mechanically (those statements as they stand, wrapped into a one-parameter function, nothing else kept) and evaluated by CPython in gen's own
+    module namespace on every module body of up to `max_len` statements over {docstring, `from __future__ import`, import, from-import, def,
+    assignment}: the new body must be [docstring] + __future__ imports + other imports + everything else, each in source order, nothing lost
+    or duplicated.  (Finite family: bounded by the length, exact in semantics.)"""
+    import itertools
+
+    from vf.pyvc import verify as V
+
+    fn, src, path = V.find_def_dotted("doctrans.gen", "gen")
+    body = fn.body
+    i0 = next((i for i, st in enumerate(body) if isinstance(st, ast.Assign) and any(isinstance(t, ast.Name) and t.id == "doc_str" for t in st.targets)), None)
+    i1 = next((i for i, st in enumerate(body) if isinstance(st, ast.Assign) and any(
+        isinstance(t, ast.Attribute) and t.attr == "body" and isinstance(t.value, ast.Name) and t.value.id == "parsed_ast" for t in st.targets)), None)
+    if i0 is None or i1 is None or i1 < i0:
+        return [("gen-tail-anchor", False, "gen computes doc_str and then reassigns parsed_ast.body", (i0, i1))]
+    gen_params = [a.arg for a in fn.args.args + fn.args.kwonlyargs]  # free names of the fragment that are gen's parameters (e.g. `prepend`)
+    frag = ast.FunctionDef(name="_gen_tail", args=ast.arguments(posonlyargs=[], args=[ast.arg("parsed_ast")] + [ast.arg(a) for a in gen_params], kwonlyargs=[],
+                                                                kw_defaults=[], defaults=[ast.Constant(None) for _ in gen_params]),
+                           body=list(body[i0:i1 + 1]) + [ast.Return(ast.Name("parsed_ast", ast.Load()))], decorator_list=[])
+    mod = ast.Module(body=[frag], type_ignores=[])
+    ast.fix_missing_locations(mod)
+    env = dict(vars(V.real_module("doctrans.gen")))
+    exec(compile(mod, "<gen tail>", "exec"), env)
+    tail = env["_gen_tail"]
+    kinds = {"D": '"""module doc"""', "F": "from __future__ import annotations", "I": "import os", "M": "from typing import List",
+             "d": "def f():\n    return 1", "a": "X = 1"}
+    bad = []
+    n = 0
+    for length in range(0, max_len + 1):
+        for shape in itertools.product("DFIMda", repeat=length):
+            if "D" in shape[1:]:
+                continue  # a string statement after the first is just an expression statement: covered by 'a'-like statements
+            n += 1
+            tree = ast.parse("\n".join(kinds[k] if k != "a" else "X%d = %d" % (j, j) for j, k in enumerate(shape)) + "\n")
+            before = list(tree.body)
+            try:
+                out = tail(tree)
+                tree2 = ast.parse("\n".join(kinds[k] if k != "a" else "X%d = %d" % (j, j) for j, k in enumerate(shape)) + "\n")
+                before2 = list(tree2.body)
+                out2 = tail(tree2, **({"prepend": "PRE = 0\n"} if "prepend" in gen_params else {}))  # the same tail when gen was given a --prepend text
+                if [before2.index(x) for x in out2.body] != [before.index(x) for x in out.body]:
+                    bad.append(("".join(shape), "with a prepend text the statements are arranged differently: %s" % [type(x).__name__ for x in out2.body]))
+                    continue
+            except Exception as e:  # noqa
+                bad.append(("".join(shape), "%s: %s" % (type(e).__name__, e)))
+                continue
+            has_doc = bool(shape) and shape[0] == "D"
+            rest = before[1:] if has_doc else before
+            is_imp = lambda x: isinstance(x, (ast.Import, ast.ImportFrom))  # noqa: E731
+            fut = [x for x in rest if isinstance(x, ast.ImportFrom) and x.module == "__future__"]
+            imps = [x for x in rest if is_imp(x) and x not in fut]
+            others = [x for x in rest if not is_imp(x)]
+            want = (before[:1] if has_doc else []) + fut + imps + others
+            if len(out.body) != len(want) or any(a is not b for a, b in zip(out.body, want)):
+                bad.append(("".join(shape), "got %s" % [type(x).__name__ for x in out.body]))
+    return [("gen-tail-order", not bad, "the reordering tail of gen keeps every statement exactly once: docstring, __future__ imports, imports, the rest - "
+             "each group in source order (%d module shapes up to %d statements)" % (n, max_len), bad[:3])]
+
+
 def check(run, record_expected=False):
     ded = deductive.run_deductive(run, KEYS)
     if record_expected:
@@ -168,6 +229,7 @@ def check(run, record_expected=False):
     # order ir_merge produces, so its determinism obligations (audit of parser_utils) are premises of "describes the object it came from"
     from vf.props import C07_ded
     deductive.add_evaluated(run, ded, C07_ded.parser_utils_audit(), "audit")
+    deductive.add_evaluated(run, ded, gen_tail_items(5 if run.tier == "quick" else 6), "doctrans.gen:gen")
     js = jobs(run.tier)
     with ThreadPoolExecutor(max_workers=16) as ex:
         res = list(ex.map(_run, js))
